@@ -363,7 +363,7 @@ def run(ctx):
         else:
             rec = recipes.gen_raw(rng)
             if rng.random() < 0.2:
-                rec["raise"] = rng.choice(["before-start", "after-start"])
+                rec["raise"] = rng.choice(["before-start", "after-start", "http-exception"])
             elif rec["shape"] in ("generator", "plain-iterator") and rng.random() < 0.3:
                 rec["raise_at"] = rng.randrange(0, len(rec["chunks"]) + 1)
         is_file = (rec.get("cls") or rec.get("response", {}).get("cls")) == "File"
